@@ -12,24 +12,39 @@ Numeric streams (|impl - model| <= 1e-9 * scale, angles compared modulo 360 degr
   mv    rbmove          rbc   rbcoords
   rbe3  formrbe3: weights, component selections (also non-ascending digits), Ind_List not in uset order, and the
         UM_List kinds indep / dep / mixed / first-ind / first-dep / wrong size (shape and ValueError compared exactly)
+  rbe3w formrbe3 from its own arguments: the model `formrbe3W` (Model/CoordRbe3Wrap.lean) gets GRID_dep, DOF_dep, the
+        Ind_List groups (component number, optional weight, scalar / list ids in every accepted Python form) and the
+        UM_List pairs as they are, plus the ids of the table rows (tables with scalar points, q-set grids and grids that
+        take no part); kinds: plain, the UM_List kinds, DOF that are not rows of the table (dropped), a scalar point as
+        independent DOF / a digit > 6 / a wrong m-set size (raise), a digit 0 in DOF_dep (Python's index -1)
   rep   replace_basic_cs (both call forms)
+  axis worlds (signed-permutation transforms, integer points; tolerance 1e-12 * scale, angles compared, nothing
+        skipped): grids exactly on the polar axis of a cylindrical / spherical system, at its origin, and at azimuths
+        of exactly 0 / 90 / 180 / 270 degrees, through loc / get / rb / mv / rbc / rep
 Exact streams (ids, levels, error kind and payload, key order; numbers of the resolved systems to 1e-9):
-  bc    build_coords on shuffled cards: valid trees, equal / unequal duplicates, missing / self / circular references
+  bc    build_coords on shuffled cards: valid trees, chains 3..8 deep whose ids decrease / increase / alternate along
+        the chain, 17..24 cards, equal / unequal duplicates, missing (also under a deep chain) / self / circular references
   mk    mkusetcoordinfo(card, None, coordref) card by card with one dictionary (known id, new id, ValueError)
 on random worlds: chains of up to 5 CORD2R/C/S systems of all type mixes, grids entered in any system with any
 output system, scalar points and q-set grids mixed in.
 
-The oracle (`search`) restates the property on the public API only, with its own numpy geometry.
+Translator: harness/translate/c14_coordconsts.py reads the fix-up thresholds (1e-8), the characteristic-length
+threshold (1e-12), the degree conversions (180) and the largest component (6) from n2p.py with `ast` and regenerates
+lean/PyYetiVerif/Generated/CoordConsts.lean, which the model uses.
+
+The oracle (`search`) restates the property on the public API only, with its own numpy geometry (and exact rational
+arithmetic for the rows at quarter turns / on the polar axis).
 """
 import json
 import math
 import os
+import random
 import struct
 import warnings
 
 import numpy as np
 
-from runner import Infra
+from runner import Infra, TieBroken
 
 ID = "C14"
 LEAN_MODULES = ["PyYetiVerif.Props.C14", "PyYetiVerif.Audit.C14"]
@@ -47,7 +62,14 @@ THEOREMS = [
         "rbe3_fullrank_three_grids rbe3_reproduces_rb_three_grids "
         "rbe3_um_indep rbe3_um_mixed rbe3_um_dep um_plan_branch um_plan_indep um_plan_dep "
         "rbe3_um_any rbe3_um_any_grids "
-        "chain_order_irrelevant chain_circular_refused chain_dup_unequal_refused chain_resolved"
+        "chain_order_irrelevant chain_circular_refused chain_dup_unequal_refused chain_resolved "
+        "build_coords_resolves_iff build_coords_unresolved_error build_coords_levels_are_depths "
+        "build_coords_order_is_topological build_coords_independent_of_card_order build_coords_duplicates "
+        "build_coords_dup_error_cid "
+        "formrbe3_is_rbe3Grid_on_sorted_lists formrbe3_sorted_is_perm formrbe3_row_order formrbe3_group_order "
+        "formrbe3_um_order formrbe3_weights_scale_invariant formrbe3_rigid_body_exact "
+        "cyl_roundtrip_everywhere sph_roundtrip_everywhere cyl_axis_convention sph_axis_convention "
+        "chain_consistent_point_everywhere rb_axis_convention rbgeom_uset_axis_angles_exact"
     ).split()
 ]
 TRUSTED = [
@@ -57,31 +79,48 @@ TRUSTED = [
     "about formrbe3 hold for every exact solver (`ExactSolve`)",
     "ℝ instance of TransOps: atan2 y x := Complex.arg (x + i y); theorems are over ℝ (the formrbe3 algebra over any "
     "field), not over doubles",
-    "uset set/DOF bookkeeping (mksetpv, mkdofpv, expanddof) is property C18's subject; here DOF are identified by "
-    "their uset row (computed by the harness) and mat_intersect / index2bool / flippv are modelled by `umPlan`",
+    "uset set/DOF bookkeeping (mksetpv, mkdofpv) is property C18's subject; in the rbe3 stream DOF are identified by "
+    "their uset row (computed by the harness), in the rbe3w stream the model does the expansion (`expandDof`), the row "
+    "look-up (`rowOf`) and the sorting (`sortByRow`) itself; mat_intersect / index2bool / flippv are modelled by "
+    "`positions` / `umPlan`",
+    "translator harness/translate/c14_coordconsts.py (Python ast; thresholds must be negative powers of ten)",
 ]
 RULE = (
     "a case is one (world, operation): world = chain of 0..5 CORD2R/C/S systems (random reference structure, "
     "depth <= 5, all type mixes) + 2..8 uset entries (grids entered in any system with any output system, "
-    "scalar points, q-set grids, per-DOF set strings), operation in cs/loc/get/rb/mv/rbc/rbe3/rep; or one set of "
-    "cards for bc/mk (1..7 cards + duplicates / missing / circular references, shuffled); non-trivial = "
+    "scalar points, q-set grids, per-DOF set strings), operation in cs/loc/get/rb/mv/rbc/rbe3/rbe3w/rep (rbe3w: the "
+    "table also holds scalar points, q-set grids and grids that take no part; axis worlds: signed-permutation "
+    "transforms, integer points, grids exactly on the polar axis / at the origin / at azimuths k*90 deg); or one set of "
+    "cards for bc/mk (1..24 cards: random trees, chains 3..8 deep with decreasing / increasing / alternating ids, "
+    "duplicates / missing / circular references, shuffled); non-trivial = "
     "the world has at least one cylindrical or spherical system or a chain of depth >= 2 involved in the "
-    "operation (every rbe3, bc, mk case counts); distinct by the world's numbers and the operation's parameters"
+    "operation (every rbe3, rbe3w, bc, mk case counts); distinct by the world's numbers and the operation's parameters"
 )
 ASSUMPTIONS = [
     "grids are kept away from the polar singularities (rho >= 0.1 in every cylindrical/spherical system they are "
-    "expressed in), A-B-C points are non-collinear (sin of the angle > 0.2)",
+    "expressed in) except in the axis worlds, where a grid is exactly on the axis (rho == 0 in exact arithmetic: "
+    "signed-permutation transforms, integer points) or at least 1 away from it; A-B-C points are non-collinear (sin of "
+    "the angle > 0.2)",
+    "the independent DOF named by Ind_List are distinct and the m-set DOF named by UM_List are distinct (of equal "
+    "rows numpy's unstable argsort decides which copy stays; the model keeps the first)",
     "formrbe3 cases have cond(rb' W rb) <= 1e6 (<= 1e4 with a UM_List, and the block formrbe3 inverts for the "
     "UM_List has cond <= 1e2); worse-conditioned ones are skipped and counted",
     "coordinate-system ids are positive (a card with id 0 would redefine the basic system; the real loop need not "
     "terminate then and the model answers `diverges`)",
 ]
 PARTIAL = (
-    "partial: the list-level wrapper formRbe3 (sorting Ind_List / UM_List into uset order, conversion of the DOF "
-    "lists into index maps) around rbe3Grid / umPlan / umApplyMx is tied by the correspondence only; that a "
-    "well-founded set of cards always resolves (build_coords succeeds) is correspondence-only; the rbe3 theorems "
-    "assume an exact linear solver and, for a UM_List, that the block the taken branch inverts is invertible; all "
-    "geometry theorems are over the reals (round-off is measured by the correspondence, never proved)"
+    "partial: the rbe3 theorems assume an exact linear solver and, for a UM_List, that the block the taken branch "
+    "inverts is invertible; formrbe3_weights_scale_invariant / formrbe3_rigid_body_exact need positive weights and "
+    "independent rows of full column rank; the packaging theorems (formrbe3_row_order, formrbe3_sorted_is_perm) need "
+    "distinct independent DOF (duplicates are outside the modelled domain); build_coords theorems assume positive "
+    "ids (a card with id 0 redefines the basic system: the model answers `diverges`) and say nothing about the order "
+    "of the dictionary *within* one level (numpy's argsort is not stable above 16 cards; the correspondence compares "
+    "the level order only); all geometry theorems are over the reals: at the polar axis the real atan2(0, 0) = 0 while "
+    "the floating-point atan2 of two signed zeros answers 0 or +-180 depending on the signs (the same point; which sign "
+    "a zero sum gets depends on the library's summation order, so these undefined angles are compared modulo 180 in "
+    "the axis worlds, everything else there to 1e-12), "
+    "and the exact values at azimuths k*90 deg are reproduced by the code to 1e-12 (measured), not bit for bit; "
+    "round-off in general is measured by the correspondence, never proved"
 )
 MANIFEST = {
     "level_text": "Proof (Lean 4, Mathlib, standard axioms) about polymorphic models of n2p's coordinate and "
@@ -100,19 +139,60 @@ MANIFEST = {
     "(rbe3_um_any; the branch is determined by where the m-set DOF lie, as repaired by 959e8e9); build_coords "
     "does not depend on the order of the cards, refuses reference cycles / undefined references / unequal "
     "duplicates, and every entry of its dictionary is the A-B-C construction of its card relative to the entry of "
-    "the card's reference. The same definitions run at Float and are compared (numbers to 1e-9, ids / levels / "
+    "the card's reference; build_coords as a whole (id sort, duplicate handling, the level loop with ref_ids = the "
+    "systems resolved in the last pass, argsort by level): it returns a dictionary iff equal-id cards are equal and "
+    "every reference chain ends in 0 (positive ids), otherwise the named error (the 'Could not resolve' message "
+    "carries the ids of the deepest level that did resolve); the level of a card is the length of its reference "
+    "chain; every card is handed to mkusetcoordinfo after the card of its reference system for any ids and depth; "
+    "the result depends only on the set of cards (equal duplicates) and, for every input including the refused ones, "
+    "not on their order (an unequal duplicate is reported with the smallest id that two different cards share); "
+    "formrbe3's list packaging (expanddof on "
+    "Ind_List / UM_List / DOF_dep, look-up of uset rows, DOF outside the table dropped, sort into uset order, "
+    "partition of the table): without UM_List the result is rbe3Grid on the strictly row-sorted permutation of the "
+    "named independent DOF with rows in DOF_dep digit order; the result does not depend on the order in which "
+    "Ind_List (groups, ids) and UM_List name the DOF; a common positive factor on all weights changes nothing; the "
+    "returned matrix times the rbgeom_uset rows of the independent DOF (any reference point) is the rows of the "
+    "dependent DOF; forward∘inverse of cylindrical / spherical coordinates is the identity at every point including "
+    "the polar axis and the origin (getcoordinates reports azimuth 0 there, polar angle 0 | 180), so querying a point "
+    "in a system and entering it again gives the same point everywhere; on the axis rbgeom_uset uses the frame of "
+    "those reported angles; at azimuths of exactly 0 / 90 / 180 / 270 deg the rbgeom_uset rows are (Q·Tᵀ)·[I, "
+    "−(p−ref)×; 0, I] with Q a signed permutation matrix. The thresholds (1e-8, 1e-12), the degree conversion and the "
+    "component range are read from n2p.py by a translator on every run. The same definitions run at Float and are compared (numbers to 1e-9, ids / levels / "
     "errors / shapes exactly) with addgrid, getcoordinates, build_coords, mkusetcoordinfo, mkcordcardinfo, "
-    "rbgeom_uset, rbgeom, rbmove, rbcoords, formrbe3 (all UM_List kinds) and replace_basic_cs on random chains of "
-    "all type mixes with scalar points and q-set grids, including azimuths exactly on the branch boundaries.",
+    "rbgeom_uset, rbgeom, rbmove, rbcoords, formrbe3 (all UM_List kinds; also from its raw arguments in every accepted "
+    "Python form, with DOF outside the table, scalar points, wrong digits, wrong m-set size) and replace_basic_cs on "
+    "random chains of all type mixes with scalar points and q-set grids, including azimuths exactly on the branch "
+    "boundaries, grids exactly on the polar axis (1e-12) and card sets up to 24 with chains 8 deep.",
     "level_note": "Trusted: Lean kernel; propext, Classical.choice, Quot.sound; the Python harness; libm/LAPACK "
-    "agreement with the Float model is measured. That build_coords succeeds on every well-founded card set, "
-    "and formRbe3's list-level wrapper (sorting into uset order) are correspondence-only. Polar singularities are excluded by the "
-    "property.",
+    "agreement with the Float model is measured. Exact solver / invertible UM block / full column rank / distinct "
+    "DOF / positive ids are hypotheses. Floating-point behaviour at the polar axis (atan2 of signed zeros: the undefined azimuth is "
+    "compared modulo 180) and the 1e-12 agreement with the exact quarter-turn values are measured by the axis worlds, "
+    "not proved.",
     "technique": "Lean 4 proof over ℝ / any field of polymorphic executable models + numeric and exact differential "
-    "correspondence at Float",
+    "correspondence at Float + ast translator for the constants",
 }
 
 TOL = 1e-9
+TOL_AXIS = 1e-12
+
+
+def translate(ctx):
+    """the thresholds / unit constants of n2p.py the model depends on -> Generated/CoordConsts.lean"""
+    import sys
+
+    tdir = os.path.join(ctx.verif, "harness", "translate")
+    if tdir not in sys.path:
+        sys.path.insert(0, tdir)
+    import c14_coordconsts as tr
+
+    try:
+        names, consts = tr.run(ctx.repo, ctx.lean)
+    except tr.Unparsable as e:
+        raise TieBroken("the constants of n2p.py no longer fit the translator's grammar: %s" % e)
+    except (OSError, SyntaxError) as e:
+        raise TieBroken("cannot read n2p.py: %s" % e)
+    ctx.extra["generated_constants"] = {k: v for k, v in consts.items()}
+    return names
 
 
 # ---------------------------------------------------------------------------------------
@@ -515,7 +595,30 @@ def _plan_world(ctx, rng, w, items):
             return np.atleast_2d(n2p.getcoordinates(uset, ids, csys, cr2))
 
         def skip_get(kt=kt, ko=ko, kT=kT):
+            if w.get("axis"):
+                # exact geometry: a grid is either exactly on the axis (compared, angles included) or well off it
+                return np.array([kt != 1 and 0.0 < _rho(kt, ko, kT, p) < 0.1 for p in plocs])
             return np.array([kt != 1 and _rho(kt, ko, kT, p) < 0.1 for p in plocs])
+
+        if w.get("axis") and kt != 1:
+            for e, p in zip(gents, plocs):
+                if _rho(kt, ko, kT, p) == 0.0:
+                    ctx.count("get:%s-exactly-on-axis" % ("cyl" if kt == 2 else "sph"))
+
+            def undefined_angles(kt=kt, ko=ko, kT=kT):
+                """(row, column) of the angles that have no meaning: the azimuth of a point exactly on the polar
+                axis, and the polar angle too at the origin of a spherical system.  There the code takes atan2 of two
+                zeros, whose answer (0 or +-180) depends on the signs of the zeros, i.e. on whether the library sums
+                a dot product from +0 (BLAS) or from its first term (the model): compared modulo 180."""
+                out = []
+                for r, p in enumerate(plocs):
+                    if _rho(kt, ko, kT, p) == 0.0:
+                        out.append((r, 1 if kt == 2 else 2))
+                        if kt == 3 and np.all(kT.T @ (p - ko) == 0.0):
+                            out.append((r, 1))
+                return out
+
+            skip_get.undefined_angles = undefined_angles
 
         ang = None if kt == 1 else ([1] if kt == 2 else [1, 2])
         br = "get:typ%d" % kt
@@ -570,6 +673,9 @@ def _plan_world(ctx, rng, w, items):
                 ctx.count("rb:cout-typ%d" % infos[e["cout"]][0])
             else:
                 ctx.count("rb:qset-grid")
+            if "ax" in e and e["ax"][0] != "free":
+                ctx.count("rb:%s-%s" % ("cyl" if infos[e["cout"]][0] == 2 else "sph",
+                                         e["ax"][0] if len(e["ax"]) == 1 else "quarter%d" % e["ax"][1]))
         if any(e["kind"] == "sp" for e in w["entries"]):
             ctx.count("rb:with-spoint")
         items.append(("rb", dict(inp0, op="rb", ref=list(ref)), "rb %s %s" % (W, reftxt), impl_rb,
@@ -656,10 +762,10 @@ def _nuset(w):
     return sum(1 if e["kind"] == "sp" else 6 for e in w["entries"])
 
 
-def _rbe3_case(rng, w):
+def _rbe3_case(rng, w, idx=None):
     """choose dependent / independent DOF for a plain world (Ind_List order is not the uset order); -> dict"""
     ents = w["entries"]
-    idx = list(range(len(ents)))
+    idx = list(range(len(ents))) if idx is None else list(idx)
     dep = rng.choice(idx)
     others = [i for i in idx if i != dep]
     rng.shuffle(others)
@@ -688,7 +794,8 @@ def _rbe3_ref(w, case):
     inside the conditioning domain and by the oracle; never the Lean model."""
     ents = w["entries"]
     infos = _ref_resolve(w["cs"])
-    locs = [infos[e["cin"]][1] + infos[e["cin"]][2] @ _to_rect(infos[e["cin"]][0], e["xyz"]) for e in ents]
+    locs = [infos[e["cin"]][1] + infos[e["cin"]][2] @ _to_rect(infos[e["cin"]][0], e["xyz"])
+            if e["kind"] == "grid" else None for e in ents]
     pdep = locs[case["dep"]]
     indlist = []  # Ind_List order
     for d, wt, grp in case["groups"]:
@@ -872,6 +979,149 @@ def _cmp_rbe3(rep, got, inp):
     return None if ok else (got.tolist(), model.tolist())
 
 
+W_KINDS = ("plain", "um-indep", "um-dep", "um-mixed", "um-first-ind", "um-first-dep", "um-size",
+           "ind-not-in-table", "spoint-ind", "digit-gt-6", "dep-digit-0", "um-not-in-table", "single-grid")
+
+
+def _with_bystanders(rng, w):
+    """insert scalar points, q-set grids and ordinary grids that take no part in the element at random places of
+    the table (they shift the uset rows and must be dropped by the partition); -> (world, participant indices)"""
+    ents = [dict(e, part=True) for e in w["entries"]]
+    used = {e["id"] for e in ents}
+    N = len(w["cs"])
+    for _ in range(rng.randint(1, 4)):
+        while True:
+            gid = rng.randint(1, 5000)
+            if gid not in used:
+                used.add(gid)
+                break
+        r = rng.random()
+        if r < 0.4:
+            e = {"kind": "sp", "id": gid, "nasset": rng.choice(["q", "b", "s"])}
+        else:
+            e = {"kind": "grid", "id": gid, "nasset": "q" if r < 0.6 else "b", "cin": 0,
+                 "xyz": [_rnd(rng, -20, 20) for _ in range(3)], "cout": rng.randint(0, N) if r >= 0.6 else 0}
+            if e["cout"]:
+                infos = _ref_resolve(w["cs"])
+                ct, co, cT = infos[e["cout"]]
+                if ct != 1 and _rho(ct, co, cT, np.array(e["xyz"])) < 0.5:
+                    e["cout"] = 0
+        ents.insert(rng.randint(0, len(ents)), e)
+    part = [i for i, e in enumerate(ents) if e.pop("part", False)]
+    return {"cs": w["cs"], "entries": ents}, part
+
+
+def _pyform_ind(rng, d, wt, ids):
+    """one `DOF_Ind, GRIDS_Ind` pair in one of the accepted Python forms"""
+    if wt is None:
+        dof = rng.choice([d, [d], (d,), np.array([d])])
+    else:
+        dof = rng.choice([[d, wt], (d, wt), np.array([d, wt])])
+    if len(ids) == 1 and rng.random() < 0.6:
+        g = rng.choice([ids[0], np.int64(ids[0])])
+    else:
+        g = rng.choice([list(ids), tuple(ids), np.array(ids)])
+    return dof, g
+
+
+def _plan_rbe3w(ctx, rng, items, kind):
+    """formrbe3 from its own arguments: the Lean model `formrbe3W` gets GRID_dep, DOF_dep, the Ind_List groups
+    (component number, optional weight, ids) and the UM_List pairs as they are, plus the ids of the table rows;
+    the harness does no DOF expansion, no row look-up and no sorting of its own for this stream."""
+    from pyyeti.nastran import n2p
+
+    w0 = _gen_world(rng, N=rng.randint(0, 3), G=rng.randint(4, 6), plain=True)
+    w, part = _with_bystanders(rng, w0)
+    ents = w["entries"]
+    case = _rbe3_case(rng, w, part)
+    if kind == "dep-digit-0":
+        case["ddof"] = rng.choice([10, 120, 1203, 30, 406])
+    if kind == "single-grid":
+        # one independent grid with all six components (statically determinate; the call mk_net_drms makes for a
+        # single boundary grid), optionally with a UM_List that swaps dependent and independent grid
+        g0 = rng.choice([i for i in part if i != case["dep"]])
+        case["groups"] = [(rng.choice([123456, 123456, 654321, 142536]), rng.choice([None, 2.5]), [g0])]
+        case["ddof"] = rng.choice([123456, 123456, 135, 6, 246])
+    ref = _rbe3_ref(w, case)
+    um_kind = kind[3:] if kind.startswith("um-") and kind != "um-not-in-table" else None
+    condmax = 1e6 if um_kind is None else 1e4
+    if not ref["cond"] <= condmax:
+        ctx.skip("rbe3w: cond(rb'Wrb) > %g" % condmax)
+        return
+    if um_kind is not None and not _add_um(rng, w, case, ref, um_kind):
+        ctx.skip("rbe3w: no well-conditioned UM_List of kind %s" % um_kind)
+        return
+    if kind == "single-grid" and case["ddof"] == 123456 and rng.random() < 0.5:
+        _add_um(rng, w, case, ref, "indep")
+    groups = [(d, wt, [ents[i]["id"] for i in grp]) for d, wt, grp in case["groups"]]
+    used = {e["id"] for e in ents}
+    sp_ids = [e["id"] for e in ents if e["kind"] == "sp"]
+    if kind == "ind-not-in-table":
+        ghost = max(used) + rng.randint(1, 50)
+        if rng.random() < 0.5:
+            groups.append((rng.choice([123, 123456, 3]), None, [ghost]))
+        else:
+            j = rng.randrange(len(groups))
+            ids = groups[j][2][:]
+            ids.insert(rng.randint(0, len(ids)), ghost)
+            groups[j] = (groups[j][0], groups[j][1], ids)
+        if sp_ids and rng.random() < 0.5:
+            groups.append((123, 2.0, [rng.choice(sp_ids)]))  # components 1-3 of a scalar point: no such rows
+    elif kind == "spoint-ind":
+        if not sp_ids:
+            ctx.skip("rbe3w: no scalar point in the table")
+            return
+        groups.append((0, None, [rng.choice(sp_ids)]))  # dof 0 of a scalar point is a row of the table
+    elif kind == "digit-gt-6":
+        groups.append((rng.choice([127, 8, 1239, 70]), None, [groups[0][2][0]]))
+    rng.shuffle(groups)
+    um_pairs = None
+    if case.get("um"):
+        um_pairs = [(ents[i]["id"], d) for i, d in case["um"]["list"]]
+    elif kind == "um-not-in-table":
+        # as many m-set DOF as dependent DOF, one of them not a row of the table
+        nd = len(ref["ddof"])
+        dofs = list(ref["ddof"])[: nd - 1]
+        um_pairs = [(ents[i]["id"], c) for i, c in dofs] + [(max(used) + 7, rng.randint(1, 6))]
+        rng.shuffle(um_pairs)
+    Ind_List = []
+    for d, wt, ids in groups:
+        Ind_List += list(_pyform_ind(rng, d, wt, ids))
+    UM_List = None
+    if um_pairs is not None:
+        UM_List = [x for pr in um_pairs for x in pr]
+        if rng.random() < 0.3:
+            UM_List = np.array(UM_List)
+    style = rng.randint(0, 1)
+
+    def impl():
+        uset, _ = _build(w, style, rng)
+        with warnings.catch_warnings():
+            warnings.simplefilter("ignore", RuntimeWarning)
+            try:
+                return n2p.formrbe3(uset, ents[case["dep"]]["id"], case["ddof"], Ind_List, UM_List)
+            except (ValueError, IndexError, np.linalg.LinAlgError) as e:
+                return ("raise", "%s: %s" % (type(e).__name__, str(e)[:80]))
+
+    line = "rbe3w %s %s %d %d %d %s %s" % (
+        _world_line(w), " ".join(str(e["id"]) for e in ents), ents[case["dep"]]["id"], case["ddof"], len(groups),
+        " ".join("%d %d %s %d %s" % (d, 0 if wt is None else 1, f2b(1.0 if wt is None else wt), len(ids),
+                                     " ".join(map(str, ids))) for d, wt, ids in groups),
+        "0" if um_pairs is None else "1 %d %s" % (len(um_pairs), " ".join("%d %d" % pr for pr in um_pairs)))
+    ctx.count("rbe3w:kind-" + kind)
+    if any(e["kind"] == "sp" for e in ents):
+        ctx.count("rbe3w:table-with-spoint")
+    if any(e["kind"] == "grid" and _isq(e) for e in ents):
+        ctx.count("rbe3w:table-with-qset-grid")
+    if any(wt is not None for _, wt, _ in groups):
+        ctx.count("rbe3w:weighted-group")
+    if any(len(ids) == 1 for _, _, ids in groups):
+        ctx.count("rbe3w:single-id-group")
+    items.append(("rbe3w", {"world": w, "style": style, "op": "rbe3w", "case": case, "kind": kind,
+                            "groups": [[d, wt, ids] for d, wt, ids in groups], "um_pairs": um_pairs},
+                  line, impl, None, None, None, None))
+
+
 class _Hang(BaseException):
     pass
 
@@ -902,10 +1152,13 @@ def _guard(fn, secs=None):
 
 def _gen_cards(rng):
     """-> (scenario, rows): rows = [cid, typ, refcid, A(3), B(3), C(3)] in the order given to build_coords"""
-    scen = rng.choice(["valid"] * 6 + ["dup-equal", "dup-equal3", "dup-unequal", "dup-unequal2", "missing-ref",
-                                        "self-ref", "cycle2", "cycle3", "empty", "single"])
+    scen = rng.choice(["valid"] * 4 + ["deep-decreasing", "deep-decreasing", "deep-increasing", "deep-zigzag", "large",
+                                        "dup-equal", "dup-equal3", "dup-unequal", "dup-unequal2", "missing-ref",
+                                        "missing-ref-deep", "self-ref", "cycle2", "cycle3", "empty", "single"])
     if scen == "empty":
         return scen, []
+    if scen.startswith("deep-") or scen in ("large", "missing-ref-deep"):
+        return scen, _gen_deep_cards(rng, scen)
     N = 1 if scen == "single" else rng.randint(2, 7)
     cs = _gen_cs(rng, N)
     rows = [[s["id"], s["typ"], _cid(cs, s["ref"])] + list(s["A"]) + list(s["B"]) + list(s["C"]) for s in cs]
@@ -950,6 +1203,47 @@ def _gen_cards(rng):
         rows += [anycard(k1, k2), anycard(k2, k3), anycard(k3, k1)]
     rng.shuffle(rows)
     return scen, [[float(v) for v in r] for r in rows]
+
+
+def _gen_deep_cards(rng, scen):
+    """one reference chain 3..8 deep (plus side branches) whose ids decrease / increase / alternate along the
+    chain from the root outwards; `large`: 17..24 cards (numpy's argsort is no longer an insertion sort);
+    `missing-ref-deep`: the chain hangs on an id nobody defines.  Rectangular systems only on the chain, so any
+    axis-parallel A, B, C are valid whatever the reference."""
+    depth = rng.randint(3, 8)
+    n = depth + rng.randint(0, 3) if scen != "large" else rng.randint(17, 24)
+    pool = sorted(rng.sample(range(1, 3000), n))
+    if scen == "deep-decreasing":
+        chain = pool[-depth:][::-1]          # root has the largest id, every child a smaller one
+    elif scen == "deep-increasing":
+        chain = pool[:depth]
+    elif scen == "deep-zigzag":
+        lo, hi = pool[:], []
+        chain = []
+        while len(chain) < depth:
+            chain.append(lo.pop() if len(chain) % 2 == 0 else lo.pop(0))
+    else:
+        chain = rng.sample(pool, depth)
+    rest = [x for x in pool if x not in chain]
+    rows = []
+    parent = {}
+    for i, cid in enumerate(chain):
+        parent[cid] = 0 if i == 0 else chain[i - 1]
+    for cid in rest:
+        parent[cid] = rng.choice([0] + chain + [x for x in rest if x in parent])
+    if scen == "missing-ref-deep":
+        parent[chain[0]] = 3000 + rng.randint(1, 50)
+    for cid in chain + rest:
+        A = [float(rng.randint(-9, 9)) for _ in range(3)]
+        i, j = rng.sample(range(3), 2)
+        B = A[:]
+        B[i] += rng.choice([-3.0, -1.0, 1.0, 2.0])
+        C = A[:]
+        C[j] += rng.choice([-2.0, -1.0, 1.0, 4.0])
+        typ = 1 if cid in chain[:-1] or any(parent[x] == cid for x in parent) else rng.choice([1, 2, 3])
+        rows.append([cid, typ, parent[cid]] + A + B + C)
+    rng.shuffle(rows)
+    return [[float(v) for v in r] for r in rows]
 
 
 def _cards_line(op, rows):
@@ -1102,6 +1396,81 @@ def _plan_mk(ctx, rng, items):
     items.append(("mk", {"op": "mk", "mode": mode, "rows": rows}, _cards_line("mk", rows), impl, cmp, None, None, None))
 
 
+def _perm_frame(rng):
+    """integer points A, B, C (relative to A) whose A-B-C triad is a signed permutation matrix: B - A along one
+    axis, C - A along another -> (dB, dC)"""
+    i, j = rng.sample(range(3), 2)
+    dB = [0, 0, 0]
+    dC = [0, 0, 0]
+    dB[i] = rng.choice([-3, -1, 1, 2])
+    dC[j] = rng.choice([-2, -1, 1, 4])
+    return dB, dC
+
+
+def _axis_world(rng, i=None):
+    """exact geometry at the singular places: systems whose transform is a signed permutation matrix and whose
+    origin is an integer point (one rectangular system optionally in between), grids exactly on the polar axis of
+    a cylindrical / spherical system (entered in that system, or in basic at the integer point) and grids at
+    azimuths of exactly 0 / 90 / 180 / 270 degrees.  Every entry is tagged `ax`:
+    ["axis"] | ["origin"] | ["quarter", k] | ["quarter-in", k] | ["free"]."""
+    cs = []
+    ids = rng.sample(range(1, 1000), 3)
+    if rng.random() < 0.5:
+        A = [rng.randint(-9, 9) for _ in range(3)]
+        dB, dC = _perm_frame(rng)
+        cs.append({"id": ids[0], "typ": 1, "ref": 0, "A": A, "B": [a + d for a, d in zip(A, dB)],
+                   "C": [a + d for a, d in zip(A, dC)]})
+    for typ in (rng.sample([2, 3], rng.randint(1, 2)) if i is None else rng.sample([2, 3], 2)):
+        ref = len(cs) if cs and cs[-1]["typ"] == 1 and rng.random() < 0.6 else 0
+        if ref and cs[ref - 1]["typ"] != 1:
+            ref = 0
+        A = [rng.randint(-9, 9) for _ in range(3)]
+        dB, dC = _perm_frame(rng)
+        cs.append({"id": ids[len(cs)], "typ": typ, "ref": ref, "A": A, "B": [a + d for a, d in zip(A, dB)],
+                   "C": [a + d for a, d in zip(A, dC)]})
+    cs = [dict(c, A=[float(v) for v in c["A"]], B=[float(v) for v in c["B"]], C=[float(v) for v in c["C"]]) for c in cs]
+    infos = _ref_resolve(cs)
+    polar = [k for k in range(1, len(cs) + 1) if cs[k - 1]["typ"] != 1]
+    gids = rng.sample(range(1, 5000), 9)
+    entries = []
+    kinds = ["axis-in", "axis-basic", "quarter-basic", "quarter-in", "axis-basic", "quarter-basic", "origin", "free"]
+    if i is None:
+        rng.shuffle(kinds)
+        kinds = kinds[: rng.randint(5, 8)]
+    for j, kind in enumerate(kinds):
+        # with a world number every (system type, kind, quarter) combination comes round deterministically
+        k = rng.choice(polar) if i is None else polar[(i + j + j // 4) % 2]
+        typ, o, T = infos[k]
+        Ti = np.rint(T)
+        r = float(rng.randint(1, 12))
+        z = float(rng.choice([-7, -2, 3, 5, 11]))
+        q = rng.randrange(4) if i is None else (i // 2 + j) % 4
+        cq, sq = [(1, 0), (0, 1), (-1, 0), (0, -1)][q]
+        e = {"kind": "grid", "id": gids[j], "nasset": "b", "cout": k}
+        if kind == "axis-in":
+            e.update(cin=k, ax=["axis"],
+                     xyz=[0.0, rng.choice([0.0, 37.5, 90.0, 180.0, -120.0]), z] if typ == 2
+                     else [abs(z), 0.0, rng.choice([0.0, 45.0, 90.0, -135.0, 180.0])])
+        elif kind == "axis-basic":
+            e.update(cin=0, ax=["axis"], xyz=(o + Ti @ np.array([0.0, 0.0, z])).tolist())
+        elif kind == "origin":
+            e.update(cin=0, ax=["origin"], xyz=o.tolist())
+        elif kind == "quarter-basic":
+            zz = z if typ == 2 else 0.0
+            e.update(cin=0, ax=["quarter", q], xyz=(o + Ti @ np.array([r * cq, r * sq, zz])).tolist())
+        elif kind == "quarter-in":
+            ang = [0.0, 90.0, 180.0, rng.choice([270.0, -90.0])][q]
+            e.update(cin=k, ax=["quarter-in", q], xyz=[r, ang, z] if typ == 2 else [r, 90.0, ang])
+        else:
+            e.update(cin=0, ax=["free"], cout=rng.randint(0, len(cs)),
+                     xyz=[float(rng.randint(-9, 9)) + 0.5 for _ in range(3)])
+            ct, co, cT = infos[e["cout"]]
+            if ct != 1 and _rho(ct, co, cT, np.array(e["xyz"])) < 0.5:
+                e["cout"] = 0
+        entries.append(e)
+    return {"cs": cs, "entries": entries, "axis": True}
+
+
 def _boundary_world(rng):
     """a spherical (and a cylindrical) system in a rotated frame with grids entered at azimuths exactly on the
     branch boundaries of getcoordinates: after the rotation to basic and back the small component is round-off"""
@@ -1197,6 +1566,8 @@ def correspondence(ctx):
             worlds.append(_gen_world(rng))
     for i in range(ctx.pick(30, 300)):
         worlds.append(_floatify(_boundary_world(rng)))
+    for i in range(ctx.pick(24, 240)):
+        worlds.append(_floatify(_axis_world(rng, i)))
     for w in worlds:
         _plan_world(ctx, rng, w, items)
     for i in range(ctx.pick(90, 1000)):
@@ -1205,6 +1576,14 @@ def correspondence(ctx):
     for i in range(ctx.pick(150, 1500)):
         w = _gen_world(rng, N=rng.randint(0, 4), G=rng.randint(4, 7), plain=True)
         _plan_rbe3(ctx, rng, w, items, kind=UM_KINDS[i % len(UM_KINDS)])
+    for kind in W_KINDS:
+        # a fixed number of cases per kind (cases outside the conditioning domain are skipped, counted and redrawn)
+        want, tries = ctx.pick(11, 110), 0
+        while want > 0 and tries < 40 * ctx.pick(11, 110):
+            n0 = len(items)
+            _plan_rbe3w(ctx, rng, items, kind)
+            want -= len(items) - n0
+            tries += 1
     for i in range(ctx.pick(250, 2500)):
         _plan_bc(ctx, rng, items)
     for i in range(ctx.pick(120, 1200)):
@@ -1224,12 +1603,13 @@ def correspondence(ctx):
                 except Exception as e:
                     got = "exception %s: %s" % (type(e).__name__, e)
                 w = inp.get("world")
-                ctx.case(key, nontrivial=True if w is None else (_nontrivial(w) or stream == "rbe3"), branch=branch)
+                ctx.case(key, nontrivial=True if w is None else (_nontrivial(w) or stream in ("rbe3", "rbe3w")),
+                         branch=branch)
                 ctx.count("stream:" + stream)
                 bad = (_cmp_rbe3 if shape is None else shape)(rep, got, inp)
                 if bad is not None:
                     ctx.disagree(stream, inp, bad[0], bad[1])
-                elif stream == "rbe3" and ctx.hist.get("sampled:" + stream) is None and not isinstance(got, tuple):
+                elif stream in ("rbe3", "rbe3w") and ctx.hist.get("sampled:" + stream) is None and not isinstance(got, tuple):
                     ctx.count("sampled:" + stream)
                     ctx.sample({"stream": stream, "request_head": line[:80],
                                 "impl_head": np.asarray(got).ravel()[:6].tolist()})
@@ -1259,6 +1639,16 @@ def correspondence(ctx):
                     got = got[~sk]
                     model = model[~sk]
             sc = _scale(w)
+            if skipf is not None and hasattr(skipf, "undefined_angles"):
+                keep = np.nonzero(~skipf())[0].tolist()
+                for r, c in skipf.undefined_angles():
+                    if r in keep:
+                        rr = keep.index(r)
+                        got[rr, c] = min(got[rr, c] % 180.0, 180.0 - got[rr, c] % 180.0)
+                        model[rr, c] = min(model[rr, c] % 180.0, 180.0 - model[rr, c] % 180.0)
+                        ctx.count("get:undefined-angle-compared-mod-180")
+            if w.get("axis"):
+                sc *= TOL_AXIS / TOL  # exact geometry (signed-permutation transforms, integer points): 1e-12
             ok, err = _close(got, model, sc, ang)
             if not ok:
                 ctx.disagree(stream, inp, got.tolist(), model.tolist())
@@ -1269,7 +1659,14 @@ def correspondence(ctx):
     for k in [k for k in ctx.hist if k.startswith("sampled:")]:
         del ctx.hist[k]
     ctx.require_branches(
-        ["stream:" + s for s in ("cs", "loc", "get", "rb", "rbg", "mv", "rbc", "rbe3", "rep", "bc", "mk")]
+        ["stream:" + s for s in ("cs", "loc", "get", "rb", "rbg", "mv", "rbc", "rbe3", "rbe3w", "rep", "bc", "mk")]
+        + ["rbe3w:kind-" + k for k in W_KINDS]
+        + ["rbe3w:table-with-spoint", "rbe3w:table-with-qset-grid", "rbe3w:weighted-group", "rbe3w:single-id-group",
+           "get:cyl-exactly-on-axis", "get:sph-exactly-on-axis", "rb:cyl-axis", "rb:sph-axis", "rb:cyl-origin",
+           "rb:sph-origin"]
+        + ["rb:%s-quarter%d" % (t, k) for t in ("cyl", "sph") for k in range(4)]
+        + ["bc:scen-deep-decreasing", "bc:scen-deep-increasing", "bc:scen-deep-zigzag", "bc:scen-large",
+           "bc:scen-missing-ref-deep", "bc:scen-dup-unequal", "bc:scen-cycle3"]
         + ["get:typ1", "get:typ2", "get:typ3", "get:sph-theta-via-sin", "get:sph-theta-via-cos",
            "get:sph-azimuth-180", "get:sph-azimuth-minus-90", "get:sph-azimuth-0-or-90", "get:sph-azimuth-diagonal",
            "rb:cout-typ1", "rb:cout-typ2", "rb:cout-typ3", "rb:qset-grid", "rb:with-spoint", "rb:ref-g", "rb:ref-x",
@@ -1285,6 +1682,30 @@ def correspondence(ctx):
 
 # ---------------------------------------------------------------------------------------
 # model-free oracle
+
+
+def _exact_rows(typ, x, refl, ax):
+    """exact rows of rbgeom_uset for a grid of an axis world, in rational arithmetic: x = the grid's six uset
+    rows (location; id/type; origin; T, a signed permutation matrix), refl = reference point"""
+    from fractions import Fraction as F
+
+    T = [[F(int(round(v))) for v in row] for row in x[3:]]
+    g = [sum(T[r][c] * (F(float(x[0][r])) - F(float(x[2][r]))) for r in range(3)) for c in range(3)]  # Tt (p - o)
+    d = [F(float(x[0][i])) - F(float(refl[i])) for i in range(3)]
+    if ax[0] in ("quarter", "quarter-in"):
+        c, sn = [(1, 0), (0, 1), (-1, 0), (0, -1)][ax[1]]
+        Q = [[c, sn, 0], [-sn, c, 0], [0, 0, 1]] if typ == 2 else [[c, sn, 0], [0, 0, -1], [-sn, c, 0]]
+    elif typ == 2:
+        Q = [[1, 0, 0], [0, 1, 0], [0, 0, 1]]
+    else:
+        # on the polar axis: theta = atan2(0, z) = 0 | 180 -> [[s, 0, c], [c, 0, -s], [0, 1, 0]] with s = 0, c = +-1
+        c = -1 if g[2] < 0 else 1
+        Q = [[0, 0, c], [c, 0, 0], [0, 1, 0]]
+    QT = [[sum(F(Q[i][k]) * T[j][k] for k in range(3)) for j in range(3)] for i in range(3)]  # Q Tt
+    S = [[F(0), d[2], -d[1]], [-d[2], F(0), d[0]], [d[1], -d[0], F(0)]]
+    top = [QT[i] + [sum(QT[i][k] * S[k][j] for k in range(3)) for j in range(3)] for i in range(3)]
+    bot = [[F(0)] * 3 + QT[i] for i in range(3)]
+    return np.array([[float(v) for v in row] for row in top + bot])
 
 
 def _tname(t):
@@ -1325,8 +1746,11 @@ def _oracle_world(ctx, w, style=0, rbe3_case=None, rep=None, seed=0):
     try:
         uset, cr = _build(w, style, rng)
     except Exception as e:
-        fail("build-raises-" + type(e).__name__, "addgrid/build_coords raised on a valid chain: %s" % e,
-             {"check": "build"}, repr(e), "a uset table")
+        dmax = max([_depth(cs, k + 1) for k in range(len(cs))] + [0])
+        dec = any(s_["ref"] and s_["id"] < cs[s_["ref"] - 1]["id"] for s_ in cs)
+        fail("build-raises-%s-chain-depth-%s%s" % (type(e).__name__, dmax if dmax < 3 else "3+",
+                                                  "-ids-decreasing-along-chain" if dec else ""),
+             "addgrid/build_coords raised on a valid chain: %s" % e, {"check": "build"}, repr(e), "a uset table")
         return
     if not gents:
         return
@@ -1370,7 +1794,14 @@ def _oracle_world(ctx, w, style=0, rbe3_case=None, rep=None, seed=0):
             fail("roundtrip-%s-raises-%s" % (_tname(ityp), type(ex).__name__), "getcoordinates raised: %s" % ex,
                  {"check": "roundtrip", "gid": e["id"]}, repr(ex), e["xyz"])
             continue
-        if not _coords_close(back, e["xyz"], ityp, tol):
+        onaxis = ityp != 1 and _rho(ityp, np.zeros(3), np.eye(3), _to_rect(ityp, e["xyz"])) < 1e-9 * sc
+        if onaxis:
+            # on the polar axis the azimuth (and at the origin the polar angle) is not defined: the same *point* is
+            # required, in the coordinates the code chooses there (checked under "axis-convention")
+            same = np.max(np.abs(_to_rect(ityp, back) - _to_rect(ityp, e["xyz"]))) <= tol
+        else:
+            same = _coords_close(back, e["xyz"], ityp, tol)
+        if not same:
             fail("roundtrip-same-system-%s" % _tname(ityp),
                  "a location entered in a system and queried back in it is a different point",
                  {"check": "roundtrip", "gid": e["id"], "depth": _depth(cs, kin)}, np.asarray(back).tolist(), e["xyz"])
@@ -1380,8 +1811,21 @@ def _oracle_world(ctx, w, style=0, rbe3_case=None, rep=None, seed=0):
                 q = np.asarray(n2p.getcoordinates(uset, p[None, :], _cid(cs, k), cr), float)
                 if kt != 1:
                     ci = np.asarray(cr[cs[k - 1]["id"]], float)
-                    if _rho(kt, ci[1], ci[2:], p) < 0.1:
+                    rho = _rho(kt, ci[1], ci[2:], p)
+                    if rho < 0.1 and not (w.get("axis") and rho == 0.0):
                         continue
+                    if rho == 0.0:
+                        # exactly on the polar axis: the azimuth has no meaning, the code reports a multiple of 180
+                        # (atan2 of two zeros; 0 over the reals), R = 0 (cylindrical) resp. theta = 0 | 180
+                        ctx.count("oracle:on-axis-%s" % _tname(kt))
+                        okc = (q[0] == 0.0 and q[1] % 180.0 == 0.0) if kt == 2 else (
+                            q[1] % 180.0 == 0.0 and q[2] % 180.0 == 0.0)
+                        if not okc:
+                            fail("axis-convention-%s" % _tname(kt),
+                                 "getcoordinates of a point exactly on the polar axis: R / angles not the axis values",
+                                 {"check": "via", "gid": e["id"], "k": k}, q.tolist(),
+                                 "[0, 0|180, z]" if kt == 2 else "[|z|, 0|180, 0|180]")
+                            continue
                 u2 = n2p.addgrid(None, 1, "b", _cid(cs, k), q, 0, dict(cr))
             except Exception as ex:
                 fail("roundtrip-via-%s-raises-%s" % (_tname(kt), type(ex).__name__), "raised: %s" % ex,
@@ -1424,6 +1868,17 @@ def _oracle_world(ctx, w, style=0, rbe3_case=None, rep=None, seed=0):
                              {"check": "rb", "gid": e["id"]}, blk.tolist(), "zeros")
                     continue
                 typ = int(x[1, 1])
+                if w.get("axis") and e.get("ax", ["free"])[0] != "free" and typ != 1:
+                    exact = _exact_rows(typ, x, refl, e["ax"])
+                    ctx.count("oracle:exact-rows-%s-%s" % (_tname(typ), e["ax"][0]))
+                    if np.max(np.abs(blk - exact)) > 1e-12 * max(1.0, float(np.max(np.abs(x[0] - refl)))):
+                        fail("rb-exact-%s-%s-ref-%s" % (_tname(typ), "-".join(map(str, e["ax"])).replace("-in", ""), reft),
+                             "rbgeom_uset rows of a grid on the polar axis / at an azimuth of k*90 degrees differ from "
+                             "the exact value (Q Tt [I, -(p-ref)x; 0, I], Q a signed permutation)",
+                             {"check": "rb", "gid": e["id"], "ref": np.asarray(ref).tolist()}, blk.tolist(),
+                             exact.tolist())
+                    if e["ax"][0] in ("axis", "origin"):
+                        continue
                 R = _local_frame(typ, x[2], x[3:], x[0])
                 want = np.kron(np.eye(2), R.T) @ _rigid6(x[0] - refl)
                 if np.max(np.abs(blk - want)) > tol:
@@ -1510,7 +1965,13 @@ def _oracle_world(ctx, w, style=0, rbe3_case=None, rep=None, seed=0):
                         break
                     c0 = n2p.getcoordinates(uset, e["id"], int(x0[1, 0]))
                     c1 = n2p.getcoordinates(un, e["id"], int(wantid))
-                    if not _coords_close(c1, c0, int(x0[1, 1]), tol):
+                    ot = int(x0[1, 1])
+                    if ot != 1 and _rho(ot, x0[2], x0[3:], x0[0]) < 0.1:
+                        # (next to) the polar axis: compare as points of the local rectangular frame
+                        okl = np.max(np.abs(_to_rect(ot, c1) - _to_rect(ot, c0))) <= tol
+                    else:
+                        okl = _coords_close(c1, c0, ot, tol)
+                    if not okl:
                         fail("replace-basic-cs-local-coordinates",
                              "coordinates of a grid in its own output system changed", ex_in,
                              np.asarray(c1).tolist(), np.asarray(c0).tolist())
@@ -1635,6 +2096,115 @@ def _oracle_rbe3(ctx, w, uset, X, case, fail, rng):
              "rbe3 with UM_List does not reproduce rigid motion at the m-set", um_in, (ru @ rr).tolist(), rm.tolist())
 
 
+def _oracle_wrapper(ctx, rng, seed):
+    """formrbe3's list handling on the API: the result does not depend on the order / Python form in which
+    Ind_List and UM_List name the DOF, nor on a common factor on the weights; the rows follow the digits of
+    DOF_dep; bystanders in the table (scalar points, q-set grids, other grids) change nothing."""
+    from pyyeti.nastran import n2p
+
+    w0 = _gen_world(rng, N=rng.randint(0, 3), G=rng.randint(4, 6), plain=True)
+    w, part = _with_bystanders(rng, w0)
+    case = _rbe3_case(rng, w, part)
+    ref = _rbe3_ref(w, case)
+    withum = rng.random() < 0.4
+    if not ref["cond"] <= (1e4 if withum else 1e6):
+        ctx.skip("oracle wrapper: cond(rb'Wrb) too large")
+        return
+    if withum and not _add_um(rng, w, case, ref, rng.choice(["indep", "dep", "mixed"])):
+        ctx.skip("oracle wrapper: no well-conditioned UM_List")
+        return
+    _oracle_wrapper_on(ctx, rng, w, case, seed)
+
+
+def _oracle_wrapper_on(ctx, rng, w, case, seed):
+    from pyyeti.nastran import n2p
+
+    ents = w["entries"]
+    part = sorted({case["dep"]} | {i for _, _, grp in case["groups"] for i in grp})
+    base = {"world": w, "style": 0, "check": "rbe3w", "case": case}
+
+    def fail(family, what, extra, observed, required):
+        ctx.fail(family, what, dict(base, **extra), observed, required)
+
+    try:
+        uset, _ = _build(w, 0, rng)
+        uset0, _ = _build({"cs": w["cs"], "entries": [ents[i] for i in part]}, 0, rng)
+    except Exception as e:
+        fail("build-raises-" + type(e).__name__, "addgrid/build_coords raised: %s" % e, {}, repr(e), "uset")
+        return
+    groups = [(d, wt, [ents[i]["id"] for i in grp]) for d, wt, grp in case["groups"]]
+    um = case.get("um")
+    um_pairs = [(ents[i]["id"], d) for i, d in um["list"]] if um else None
+    dep = ents[case["dep"]]["id"]
+
+    def call(us, grps, ddof, ump, forms=False):
+        il = []
+        for d, wt, ids in grps:
+            il += list(_pyform_ind(rng, d, wt, ids)) if forms else [d if wt is None else [d, wt], list(ids)]
+        ul = None if ump is None else [v for pr in ump for v in pr]
+        with warnings.catch_warnings():
+            warnings.simplefilter("ignore")
+            return np.asarray(n2p.formrbe3(us, dep, ddof, il, ul), float)
+
+    tag = "with-um-" + um["kind"] if um else "no-um"
+    try:
+        r0 = call(uset, groups, case["ddof"], um_pairs)
+        # 1. order and Python form of the lists
+        g2 = []
+        for d, wt, ids in groups:
+            ids = ids[:]
+            rng.shuffle(ids)
+            if len(ids) >= 2 and rng.random() < 0.5:
+                cut = rng.randint(1, len(ids) - 1)
+                g2 += [(d, wt, ids[:cut]), (d, wt, ids[cut:])]
+            else:
+                g2.append((d, wt, ids))
+        rng.shuffle(g2)
+        u2 = None
+        if um_pairs is not None:
+            u2 = [(i, int("".join(rng.sample(str(d), len(str(d)))))) for i, d in um_pairs]
+            rng.shuffle(u2)
+        r1 = call(uset, g2, case["ddof"], u2, forms=True)
+        sc = max(1.0, float(np.max(np.abs(r0))))
+        if r1.shape != r0.shape or np.max(np.abs(r1 - r0)) > 1e-9 * sc:
+            fail("rbe3-depends-on-list-order-" + tag, "formrbe3 gives a different matrix when Ind_List / UM_List name "
+                 "the same DOF in another order or Python form", {"groups2": [[d, wt, ids] for d, wt, ids in g2],
+                                                                 "um2": u2}, r1.tolist(), r0.tolist())
+            return
+        # 2. a common factor on all weights
+        c = rng.choice([0.25, 3.0, 10.0, 1e3])
+        g3 = [(d, c * (1.0 if wt is None else wt), ids) for d, wt, ids in groups]
+        r2 = call(uset, g3, case["ddof"], um_pairs)
+        if r2.shape != r0.shape or np.max(np.abs(r2 - r0)) > 1e-7 * sc:
+            fail("rbe3-weights-not-scale-invariant-" + tag, "multiplying every weight by %g changes the matrix" % c,
+                 {"factor": c}, r2.tolist(), r0.tolist())
+            return
+        # 3. bystanders in the table change nothing
+        r3 = call(uset0, groups, case["ddof"], um_pairs)
+        if r3.shape != r0.shape or np.max(np.abs(r3 - r0)) > 1e-9 * sc:
+            fail("rbe3-depends-on-other-table-rows-" + tag, "scalar points / grids that take no part in the element "
+                 "change the matrix", {}, r0.tolist(), r3.tolist())
+            return
+        # 4. rows follow the digits of DOF_dep (no UM_List)
+        if um_pairs is None and len(str(case["ddof"])) > 1:
+            dg = list(str(case["ddof"]))
+            perm = list(range(len(dg)))
+            rng.shuffle(perm)
+            r4 = call(uset, groups, int("".join(dg[i] for i in perm)), None)
+            if r4.shape != r0.shape or np.max(np.abs(r4 - r0[perm])) > 1e-9 * sc:
+                fail("rbe3-dependent-row-order", "the rows do not follow the digits of DOF_dep",
+                     {"perm": perm}, r4.tolist(), r0[perm].tolist())
+                return
+    except Exception as ex:
+        fail("rbe3-wrapper-raises-%s-%s" % (type(ex).__name__, tag), "formrbe3 raised: %s" % str(ex)[:120], {},
+             repr(ex), "a matrix")
+        return
+    # 5. rigid-body motion is reproduced with the columns in uset order (table with bystanders)
+    X = uset[_grows(uset)].loc[:, "x":"z"].values.reshape(-1, 6, 3)
+    _oracle_rbe3(ctx, w, uset, X, case, lambda fam, what, extra, obs, req: fail(fam, what, extra, obs, req),
+                 random.Random(seed))
+
+
 def _docstring_world():
     """the uset of formrbe3's docstring: four grids on the unit circle, the dependent one at the origin"""
     locs = [[1, 0, 0], [0, 1, 0], [-1, 0, 0], [0, -1, 0], [0, 0, 0]]
@@ -1664,7 +2234,7 @@ def _oracle_chain(ctx, rng, n):
         ctx.count("oracle:chain")
         inp = {"check": "chain", "scenario": scen, "rows": rows}
         arr = np.array(rows, float) if rows else np.zeros((0, 12))
-        bad = scen in ("dup-unequal", "dup-unequal2", "missing-ref", "self-ref", "cycle2", "cycle3")
+        bad = scen in ("dup-unequal", "dup-unequal2", "missing-ref", "missing-ref-deep", "self-ref", "cycle2", "cycle3")
         try:
             cr = _guard(lambda: n2p.build_coords(arr))
         except _Hang:
@@ -1753,6 +2323,8 @@ def search(ctx, hints):
             worlds.append(_gen_world(rng, N=5) if i % 4 == 3 else _gen_world(rng))
         for i in range(ctx.pick(12, 120)):
             worlds.append(_floatify(_boundary_world(rng)))
+        for i in range(ctx.pick(16, 160)):
+            worlds.append(_floatify(_axis_world(rng)))
         for i, w in enumerate(worlds):
             _oracle_world(ctx, w, style=i % 2, seed=ctx.seed * 100003 + i)
             ctx.count("oracle:worlds")
@@ -1761,6 +2333,11 @@ def search(ctx, hints):
         _oracle_chain(ctx, rng, ctx.pick(80, 800))
         if len(ctx.failures) - n0 > 12:
             return
+        for i in range(ctx.pick(40, 400)):
+            _oracle_wrapper(ctx, rng, ctx.seed * 104729 + i)
+            ctx.count("oracle:rbe3-wrapper")
+            if len(ctx.failures) - n0 > 12:
+                return
         for case in _um_probes():
             _oracle_world_rbe3_only(ctx, _docstring_world(), case, 1)
             ctx.count("oracle:rbe3-um-probe")
@@ -1804,6 +2381,24 @@ def _oracle_world_rbe3_only(ctx, w, case, seed):
     _oracle_rbe3(ctx, w, uset, X, case, fail, rng)
 
 
+def _replay_wrapper(sub, inp, f):
+    """re-run the list-handling checks of formrbe3 on the recorded world and case (the reorderings are drawn
+    again, with a few seeds)"""
+    w = _floatify(inp["world"])
+    case = dict(inp["case"])
+    case["groups"] = [tuple(g) for g in case["groups"]]
+    if case.get("um"):
+        case["um"] = dict(case["um"], list=[tuple(t) for t in case["um"]["list"]])
+    with warnings.catch_warnings():
+        warnings.simplefilter("ignore", FutureWarning)
+        for seed in range(6):
+            _oracle_wrapper_on(sub, random.Random(seed), w, case, seed)
+            same = [g for g in sub.failures if g["family"] == f["family"]]
+            if same:
+                return same[0]
+    return sub.failures[0] if sub.failures else None
+
+
 def _replay_chain(sub, inp, f):
     """re-run build_coords on the recorded cards"""
     import random
@@ -1829,6 +2424,8 @@ def replay(ctx, data):
     sub.fail = lambda *a: type(ctx).fail(sub, *a)
     if inp.get("check") == "chain":
         return _replay_chain(sub, inp, f)
+    if inp.get("check") == "rbe3w":
+        return _replay_wrapper(sub, inp, f)
     w = _floatify(inp["world"])
     with warnings.catch_warnings():
         warnings.simplefilter("ignore", FutureWarning)
